@@ -323,11 +323,11 @@ class Interp(object):
         return None
 
     def class_member_value(self, owner, name, st):
-        key = ('<cls>', owner.qualname, name)
+        key = ('<cls>', owner.qualname, name) if getattr(owner, 'closure', None) is None else ('<cls>', id(owner), name)
         if key in self.module_state:
             return self.module_state[key]
         if isinstance(st, ast.FunctionDef):
-            v = self.make_func(st, owner.module, None, owner, owner.qualname + '.' + name)
+            v = self.make_func(st, owner.module, getattr(owner, 'closure', None), owner, owner.qualname + '.' + name)
         elif isinstance(st, ast.ClassDef):
             v = self.make_class(st, owner.module, outer=owner)
         else:
@@ -768,8 +768,22 @@ class Interp(object):
             if isinstance(a, str) and _concrete_fmt_args(b):
                 try:
                     return a % _py_fmt_args(b)
-                except Exception:
+                except TypeError:
                     self.raise_builtin('TypeError', 'wd:format')
+                except KeyError:
+                    self.raise_builtin('KeyError', 'wd:format')
+                except ValueError:
+                    self.raise_builtin('ValueError', 'wd:format')
+            r = self._format_percent_s(a, b)
+            if r is not None:
+                return r
+            if self._format_literal_ok(a, b):
+                return self.fresh_str('fmt')
+            # format string or arguments not fully known: '%' either yields some string or raises one of the three
+            # exceptions printf-style formatting can raise (wrong arity / bad directive / missing key)
+            k = self.ctx.choose(4, 'outcome of % formatting') if not self.ctx.spec else 0
+            if k:
+                self.raise_builtin(['TypeError', 'ValueError', 'KeyError'][k - 1], 'wd:format[%]')
             return self.fresh_str('fmt')
         if is_str(a) and is_int(b) and isinstance(op, ast.Mult):
             if isinstance(b, int):
@@ -805,6 +819,63 @@ class Interp(object):
             if isinstance(op, ast.Add):
                 self.raise_builtin('TypeError', 'wd:type[str + int]')
         raise EngineError('binop %s on %r, %r' % (type(op).__name__, a, b))
+
+    def _format_literal_ok(self, fmt, args):
+        """a literal printf-style format without mapping keys, applied to the right number of arguments of the
+        right kinds (any value for %s/%r, integers for %d %i %o %u %x %X %c ...): raises nothing"""
+        if not isinstance(fmt, str):
+            return False
+        import re as _re
+        rx = _re.compile(r'%(\(\w*\))?[#0\- +]*(\d+|\*)?(\.(\d+|\*))?[hlL]?(.)', _re.S)
+        kinds = []
+        pos = 0
+        while True:
+            i = fmt.find('%', pos)
+            if i < 0:
+                break
+            m = rx.match(fmt, i)
+            if not m or m.group(1) or m.group(2) == '*' or m.group(4) == '*' or m.group(5) not in 'diouxXeEfFgGcrsa%':
+                return False
+            if m.group(5) != '%':
+                kinds.append(m.group(5))
+            pos = m.end()
+        vals = list(args) if isinstance(args, tuple) else [args]
+        if isinstance(args, (PyDict, PyList)) and kinds != ['s'] and kinds != ['r']:
+            return False
+        if len(vals) != len(kinds):
+            return False
+        for k, v in zip(kinds, vals):
+            if k in 'sra':
+                continue
+            if not (is_int(v) or is_boolv(v)):
+                return False
+        return True
+
+    def _format_percent_s(self, fmt, args):
+        """exact model of  fmt % args  when fmt is a literal whose only directives are %s / %% and the
+        arguments are strings (one string, or a tuple of strings of the right length)"""
+        if not isinstance(fmt, str):
+            return None
+        import re as _re
+        parts = _re.split(r'(%%|%s)', fmt)
+        if any('%' in p for p in parts if p not in ('%%', '%s')):
+            return None
+        n = sum(1 for p in parts if p == '%s')
+        if isinstance(args, tuple):
+            vals = list(args)
+        elif isinstance(args, PyDict):
+            return None
+        else:
+            vals = [args]
+        if not all(is_str(v) for v in vals):
+            return None
+        if len(vals) != n:
+            self.raise_builtin('TypeError', 'wd:format[arguments do not match the format string]')
+        out = ''
+        it = iter(vals)
+        for p in parts:
+            out = V.sconcat(out, '%' if p == '%%' else (next(it) if p == '%s' else p))
+        return out
 
     def eval_Subscript(self, node, frame):
         v = self.eval(node.value, frame)
@@ -1008,6 +1079,10 @@ class Interp(object):
             m = v.info
             if name in m.defs:
                 return self.module_get(m, name)
+            try:
+                return self.module_get(m, name)        # e.g. names re-exported by `from x import *`
+            except KeyError:
+                pass
             sub = self.program.module(m.name + '.' + name)
             if sub is not None:
                 return ModuleVal(sub)
@@ -1374,7 +1449,7 @@ class Interp(object):
             self.raise_builtin('TypeError', 'wd:type[int not iterable]')
         raise EngineError('iteration over %r' % (v,))
 
-    def _comprehension(self, node, frame, emit):
+    def _comprehension(self, node, frame, emit, first_iter=None):
         fr = Frame(frame.module, frame.func, frame)
 
         def rec(i):
@@ -1382,7 +1457,7 @@ class Interp(object):
                 emit(fr)
                 return
             g = node.generators[i]
-            it = self.eval(g.iter, fr if i else frame)
+            it = first_iter[0] if (i == 0 and first_iter is not None) else self.eval(g.iter, fr if i else frame)
             for x in self.iter_values(it):
                 self.assign(g.target, x, fr)
                 if all(self.truthy(self.eval(c, fr)) for c in g.ifs):
@@ -1390,9 +1465,40 @@ class Interp(object):
         rec(0)
 
     def eval_ListComp(self, node, frame):
+        src = [self.eval(node.generators[0].iter, frame)]      # evaluated exactly once
+        for h in (getattr(self.registry, 'comp_hooks', None) or []):
+            r = h(self, node, frame, src[0])
+            if r is not None:
+                return r
+        g = self._generic_comprehension(node, frame, src[0])
+        if g is not None:
+            return g
         out = []
-        self._comprehension(node, frame, lambda fr: out.append(self.eval(node.elt, fr)))
+        self._comprehension(node, frame, lambda fr: out.append(self.eval(node.elt, fr)), first_iter=src)
         return PyList(out)
+
+    def _generic_comprehension(self, node, frame, src):
+        """[f(c) for c in s] over a symbolic string s: the element expression is evaluated once for an
+        arbitrary character of s (so its obligations hold for every element); the result is a list of
+        unknown length whose elements are only known by that generic value's kind (GenericList)."""
+        if len(node.generators) != 1 or node.generators[0].ifs:
+            return None
+        g = node.generators[0]
+        if not isinstance(g.target, ast.Name):
+            return None
+        if not isinstance(src, V.SStr) or isinstance(src, str):
+            return None
+        n = V.slen(src)
+        if isinstance(n, int):
+            return None
+        fr = Frame(frame.module, frame.func, frame)
+        if not self.ctx.branch(zint(n) > 0):
+            return PyList([])
+        i = self.ctx.fresh_int('generic_index')
+        self.ctx.assume(z3.And(i >= 0, i < zint(n)))
+        self.assign(g.target, V.sslice(self.ctx, src, i, simp(i + 1)), fr)
+        elem = self.eval(node.elt, fr)
+        return V.GenericList(elem)
 
     def eval_GeneratorExp(self, node, frame):
         return self.eval_ListComp(node, frame)
@@ -1485,6 +1591,7 @@ class Interp(object):
         if node.bases or node.decorator_list or node.keywords:
             raise EngineError('nested class definition with bases/decorators')
         ci = ClassInfo(node.name, frame.module, node, [self.program.builtin_classes['object']])
+        ci.closure = frame          # methods of a local class see the enclosing function's variables
         frame.vars[node.name] = ci
 
     def exec_Return(self, node, frame):
